@@ -538,6 +538,8 @@ func cmdMicro(prop string, n int, seed uint64, driver, out string) (*Result, err
 			mc = genTimeCase(r)
 		case "C17":
 			mc = genNestCase(r)
+		case "C19":
+			mc = genOptionsCase(r)
 		case "C07":
 			mc = genMonotoneCase(r, &prof)
 		}
@@ -549,6 +551,7 @@ func cmdMicro(prop string, n int, seed uint64, driver, out string) (*Result, err
 		"C06": "direct calls of the bucket routine through the verif hook (keys/salts sized around the 100-byte buffer and its doublings, seeds incl. int64 extremes, bucketBy of every JSON type, secondary), LocalBuffer op sequences from several initial capacities, hex strings; non-trivial = a hash was actually computed / buffer regrown / hex accepted",
 		"C04": "go-semver parse+compare and ldattr reference parsing against their Gallina models (dependency models the operator theorems rest on); non-trivial = both inputs parse",
 		"C17": "well-formed flag / segment documents whose free value (variations, clause values, unknown property) nests around the limit of 10000, beside string literals full of brackets, escaped quotes and backslashes, through UnmarshalFeatureFlag / UnmarshalSegment; the model answers from the byte-level scan; non-trivial = total depth within 2 of the limit",
+		"C19": "option lists for NewEvaluatorWithOptions with nil entries, repeated options, nil loggers and nil providers; what the evaluator ended up configured with is read off three probe evaluations (secondary key hashed, error line written for a malformed flag, big-segment store asked); the model folds the list; non-trivial = at least two entries",
 		"C18": "ValueToTimestamp on rendered instants of years 0000-9999 (random offset, fraction, case), corrupted/truncated renderings, epoch numbers incl. extremes; non-trivial = accepted as a timestamp",
 		"C07": "pairs of rollouts where one bucket grows at the expense of later ones, and segment rules with growing weight, on contexts whose bucket is adjacent to the split; non-trivial = the context was in the grown bucket",
 	}[prop]
